@@ -384,7 +384,12 @@ def _add(module: Module, val: ModuleAttr) -> ModuleAttr:
         ):
             if ctr.get(val.name, None) is prior:
                 ctr.pop(val.name)
-        if prior is not val:
+        held_elsewhere = any(
+            other is prior
+            for key, other in module.namespace.items()
+            if key != val.name
+        )
+        if prior is not val and not held_elsewhere:
             # No longer ours. Anything still connected to it now refers to an orphan.
             prior._parent_module = None
 
